@@ -1872,7 +1872,40 @@ def gen_comment_sanitize(repo):
     return text, 1
 
 
+def gen_param_docs(repo):
+    """C08: where does the converter take the documentation of parameters and return members from?
+    true  = `@param` tags for parameters, `@returns` tags for return members (an unnamed `@returns` documents the return
+            member of an operation that has exactly one) — the shape since the repair of D-08a;
+    false = `@param` tags for both (the shape before). Anything else is not modelled."""
+    T, rel = "ParamDocs", "slicec/src/slice_file_converter.rs"
+    src = read(repo, rel, T)
+    body = fn_body(src, "get_doc_comment_for_parameter", T, rel)
+    conv = fn_body(src, "convert_operation", T, rel)
+    params = re.search(r"operation_comment\s*\.\s*params\s*\.\s*iter\(\)\s*\.find\(\|(\w+)\|\s*\1\.identifier\.value\s*==\s*parameter\.identifier\(\)\)", body)
+    if not params:
+        raise ExtractionError(T, rel, "get_doc_comment_for_parameter: the `@param` lookup by identifier is gone")
+    returns = re.search(r"operation_comment\s*\.\s*returns\s*\.\s*iter\(\)\s*\.find\(\|(\w+)\|\s*match\s*&\1\.identifier\s*\{\s*"
+                        r"Some\((\w+)\)\s*=>\s*\2\.value\s*==\s*parameter\.identifier\(\)\s*,\s*None\s*=>\s*(\w+)\s*,?\s*\}\)", body)
+    single = re.search(r"let\s+(\w+)\s*=\s*operation\.return_members\(\)\.len\(\)\s*==\s*1\s*;", body)
+    branch = re.search(r"let\s+message\s*=\s*if\s+is_return_member\s*\{", body)
+    calls = (re.search(r"operation\.parameters\(\)[^;]*?self\.convert_parameter\(\w+\s*,\s*false\)", conv, re.S),
+             re.search(r"operation\.return_members\(\)[^;]*?self\.convert_parameter\(\w+\s*,\s*true\)", conv, re.S))
+    if returns and single and branch and all(calls) and returns.group(3) == single.group(1):
+        flag = True
+    elif not returns and "returns" not in body and "is_return_member" not in src:
+        flag = False
+    else:
+        raise ExtractionError(T, rel, "get_doc_comment_for_parameter / convert_operation have neither the `@returns`-aware nor the "
+                                      "`@param`-only shape: not modelled")
+    text = "-- GENERATED by translator/extract.py from slicec/src/slice_file_converter.rs — do not edit.\nnamespace Slicec.Gen\n" \
+           "/-- return members take their documentation from the `@returns` tags (by identifier; an unnamed tag when the operation has\n" \
+           "    one return member), parameters from the `@param` tags; false = both from the `@param` tags -/\n" \
+           f"def returnDocsFromReturnsTags : Bool := {'true' if flag else 'false'}\nend Slicec.Gen\n"
+    return text, 1
+
+
 TABLES = {
+    "ParamDocs": gen_param_docs,
     "CommentSanitize": gen_comment_sanitize,
     "VisitorReach": gen_visitor_reach,
     "EncoderShapes": gen_encoder_shapes,
